@@ -854,6 +854,33 @@ def aobj_member(f: Folder, obj: AObj, attr: str) -> Any:
 TRIVIAL_DECORATORS = ("staticmethod", "classmethod", "property", "cached_property", "contextmanager", "abstractmethod", "setter", "overload", "lru_cache", "cache", "wraps", "override", "final", "singledispatch", "register")
 
 
+def is_memoised(fn: Any) -> bool:
+    """the function is wrapped by functools.lru_cache / functools.cache"""
+    for d in fn.node.decorator_list:
+        name = (dotted(d.func) if isinstance(d, ast.Call) else dotted(d)) or "?"
+        if name.split(".")[-1] in ("lru_cache", "cache"):
+            return True
+    return False
+
+
+class _NoMemo:
+    pass
+
+
+def memo_lookup(fn: Any, args: Sequence[Any], kwargs: Dict[str, Any]) -> Any:
+    """functools.lru_cache as Python implements it: one table per function and process, keyed by the arguments' own
+    __hash__ / __eq__ (instances of repository classes: their evaluated methods); an unhashable argument is a TypeError"""
+    from .fold import PROCESS_STATE
+
+    table = PROCESS_STATE.setdefault(("memo", fn.qualname), (None, {}))[1]
+    try:
+        key = (tuple(args), tuple(sorted(kwargs.items())))
+        hash(key)
+    except TypeError:
+        raise Raised("TypeError", fn.node)
+    return table, key, table.get(key, _NoMemo)
+
+
 def nontrivial_decorators(fn: Any) -> List[ast.expr]:
     out = []
     for d in fn.node.decorator_list:
@@ -884,6 +911,13 @@ class _BoundMethod(Abstract):
 
     def call(self, f: Folder, args: List[Any], kwargs: Dict[str, Any]) -> Any:
         fn = self.fn
+        if not self.raw and not fn.is_property and is_memoised(fn):
+            table_, key_, hit_ = memo_lookup(fn, [self.obj] + list(args), dict(kwargs))
+            if hit_ is not _NoMemo:
+                return hit_
+            res_ = _BoundMethod(self.obj, fn, raw=True).call(f, args, kwargs)
+            table_[key_] = res_
+            return res_
         decos = [] if self.raw else nontrivial_decorators(fn)
         if decos:
             # the name is bound to what the decorators (evaluated from source) make of the function
@@ -1177,6 +1211,13 @@ def call_fn(ctx: Any, fn: Any, args: Sequence[Any], kwargs: Optional[Dict[str, A
             for d in reversed(decos):
                 v = call_value(f0, Folder({}, ctx.repo, fn.module, None, hook).fold(d), [v])
             return call_value(_CURRENT[-1] if _CURRENT else f0, v, list(args), dict(kwargs or {}))
+    if is_memoised(fn) and not raw:
+        table_, key_, hit_ = memo_lookup(fn, list(args), dict(kwargs or {}))
+        if hit_ is not _NoMemo:
+            return hit_
+        res_ = call_fn(ctx, fn, args, kwargs, hook, keep, raw=True)
+        table_[key_] = res_
+        return res_
     node = ctx.inl(fn, keep=tuple(keep))
     a = node.args
     params = [x.arg for x in a.posonlyargs + a.args]
